@@ -122,7 +122,7 @@ def json_diff(a, b, path=""):
     if type(a) != type(b):
         return f"{path}: {a!r} != {b!r}"
     if isinstance(a, dict):
-        for k in sorted(set(a) | set(b)):
+        for k in sorted(k for k in set(a) | set(b) if not k.startswith("_")):  # ("_..." keys are the oracle's own)
             if k not in a or k not in b:
                 return f"{path}/{k}: present in one only"
             d = json_diff(a[k], b[k], f"{path}/{k}")
